@@ -1,16 +1,17 @@
 #!/bin/sh
 # usage: tools/mutest_wt.sh <patch.diff> <prop> [<prop>...]
 # Like mutest.sh, but applies the seeded change to a PRIVATE worktree of /repo (HEAD) and a private copy of the harness,
-# so that /repo is never touched (safe while other checks are running). Evidence files are written as usual.
+# so that /repo is never touched (safe while other checks are running). Evidence files go to a scratch directory.
 patch="$1"; shift
 wt=$(mktemp -d /var/tmp/mutwt-XXXXXX); rmdir "$wt"
 hz=$(mktemp -d /var/tmp/muthz-XXXXXX)
+ev=$(mktemp -d /var/tmp/mutev-XXXXXX)
 git -C /repo worktree add -q --detach "$wt" HEAD || exit 2
-trap 'git -C /repo worktree remove --force "$wt" 2>/dev/null; rm -rf "$hz"' EXIT INT TERM
+trap 'git -C /repo worktree remove --force "$wt" 2>/dev/null; rm -rf "$hz" "$ev"' EXIT INT TERM
 git -C "$wt" apply "$patch" || { echo "patch does not apply"; exit 2; }
 cp -r /verif/harness/. "$hz"/
 sed -i "s#=> /repo#=> $wt#" "$hz/go.mod"
 for p in "$@"; do
-  VERIF_REPO="$wt" VERIF_HARNESS="$hz" /verif/check "$p" --tier "${TIER:-quick}" 2>/dev/null | grep -E "^(VIOLATION|KNOWN-FINDING|  what)" | cut -c1-400 | head -8
+  VERIF_EVIDENCE="$ev" VERIF_REPO="$wt" VERIF_HARNESS="$hz" /verif/check "$p" --tier "${TIER:-quick}" 2>/dev/null | grep -E "^(VIOLATION|KNOWN-FINDING|  what)" | cut -c1-400 | head -8
   echo "== $p done"
 done
